@@ -62,6 +62,8 @@ def main():
                 if corpus == 'benign':
                     touched = set(l[6:].strip() for l in open(pd) if l.startswith('+++ b/'))
                     plist = sorted(p for p in props if anchors.get(p, set()) & touched)
+                    if not plist and 'vibrato/src/utils.rs' in touched:
+                        plist = ['C10']       # parse_csv_row / FromU32 are under contract in C10's closure (no anchor list names utils.rs)
                 res = []
                 for p in plist:
                     c = sh('python3 engine/check.py %s' % p, cwd=snap, env=dict(os.environ, VERIF_REPO=scr, VERIF_KANI_TARGET='/tmp/verif_kani_target_w%d' % k))
